@@ -1398,6 +1398,88 @@ def w_put_post_class(ctx, s):
     return r
 
 
+def w_reshape(ctx, s):
+    """POST /reshaper: p1's inventory becomes {VCPU: total t} (DISK_GB is
+    dropped), c1's allocations become {p1: VCPU a}; c2 is not named"""
+    g1 = ctx.int('req_gen')
+    t, a = ctx.int('new_total'), ctx.int('amt1')
+    null1 = symex.fork(ctx.bool('req_cgen_null'))
+    cg = None if null1 else ctx.int('req_cgen')
+    body = {'inventories': {U(1): {
+        'resource_provider_generation': g1,
+        'inventories': {'VCPU': {'total': t}}}},
+        'allocations': {CONS(1): {
+            'allocations': {U(1): {'resources': {'VCPU': a}}},
+            'project_id': 'proj', 'user_id': 'user',
+            'consumer_generation': cg}}}
+    r = app.call('POST', '/reshaper', body, version='1.36',
+                 roles='admin,service')
+    post = s.w.dump()
+    from engine.scenario import inventory_bounds
+    b = inventory_bounds()
+    cons = s.cons[1]
+    gen_ok = Not(cons['present']) if null1 else \
+        And(cons['present'], to_z3(cg) == to_z3(cons['generation']))
+    disk_in_use = s.alloc[(2, 1, 'DISK_GB')][0]
+    others = s.used(1, 'VCPU', consumers=[2])
+    accept = z3.And(
+        to_z3(t) >= 1, to_z3(t) <= b['total'][1], to_z3(a) >= 1,
+        to_z3(g1) == to_z3(s.w.prov[1]['generation']), zbool(gen_ok),
+        z3.Not(zbool(disk_in_use)), to_z3(a) <= b['max_unit'][1],
+        others + to_z3(a) <= to_z3(t))
+    if r.status == 204:
+        obligation(ctx, 'write-status', z3.Not(accept),
+                   'reshape accepted although its documented meaning '
+                   'requires rejection', sig='accepted')
+        v = _inv_rows(post, s, 1, 'VCPU')
+        obligation(ctx, 'write-effect',
+                   zbool(Not(Or(*[x.present for x in v]))),
+                   'VCPU inventory of p1 missing after the reshape')
+        for f, want in (('total', t), ('reserved', 0), ('min_unit', 1),
+                        ('step_size', 1)):
+            n, val = _merged(v, f)
+            obligation(ctx, 'write-effect', to_z3(val) != to_z3(want),
+                       'stored %s differs' % f, sig=f)
+        obligation(ctx, 'write-effect',
+                   zbool(Or(*[x.present
+                              for x in _inv_rows(post, s, 1, 'DISK_GB')])),
+                   'DISK_GB inventory survives a reshape that omits it')
+        _inv_unchanged(ctx, s, post, 2, 'VCPU')
+        for (c, p, rc), (pres, used) in s.alloc.items():
+            rows = [x for x in post['allocations']
+                    if x.vals['consumer_id'] == CONS(c) and
+                    x.vals['resource_provider_id'] == p and
+                    x.vals['resource_class_id'] == s.w.rcs[rc]]
+            now = Or(*[x.present for x in rows])
+            if c != 1:
+                obligation(ctx, 'write-effect',
+                           zbool(Or(And(now, Not(pres)), And(pres, Not(now)))),
+                           'an allocation of a consumer the reshape does not '
+                           'name changed', sig='bystander')
+            elif (p, rc) == (1, 'VCPU'):
+                obligation(ctx, 'write-effect', zbool(Not(now)),
+                           'requested allocation missing', sig='missing')
+                n, val = _merged(rows, 'used')
+                obligation(ctx, 'write-effect', to_z3(val) != to_z3(a),
+                           'stored amount differs', sig='amount')
+            else:
+                obligation(ctx, 'write-effect', zbool(now),
+                           'stale allocation of c1 survives', sig='stale')
+    else:
+        obligation(ctx, 'write-status', accept,
+                   'reshape rejected with %d although its documented meaning '
+                   'requires success' % r.status,
+                   sig='rejected:%d' % r.status)
+        obligation(ctx, 'write-effect',
+                   zbool(rel_diff(s.pre, post, ('inventories', 'allocations',
+                                                'resource_providers'))),
+                   'rejected reshape changed inventories/allocations/'
+                   'generations')
+        if r.status not in (400, 409):
+            runner.violation(ctx, 'write-status', 'status %d' % r.status)
+    return r
+
+
 WRITES = dict(put_allocations=w_put_allocations,
               put_allocations_attrs=w_put_allocations_attrs,
               put_inventories=w_put_inventories,
@@ -1412,7 +1494,8 @@ WRITES = dict(put_allocations=w_put_allocations,
               delete_provider=w_delete_provider, put_provider=w_put_provider,
               post_provider=w_post_provider,
               delete_trait=w_delete_trait, put_trait=w_put_trait,
-              delete_class=w_delete_class, put_post_class=w_put_post_class)
+              delete_class=w_delete_class, put_post_class=w_put_post_class,
+              reshape=w_reshape)
 
 
 def fam_write(name):
@@ -1455,9 +1538,7 @@ if __name__ == '__main__':
                      'the 1.0-1.27 formats, PUT/POST/DELETE inventories, '
                      'PUT/DELETE traits, PUT aggregates, POST/PUT/DELETE '
                      'resource_providers, PUT/DELETE traits, POST/PUT/DELETE '
-                     'resource_classes); the reshaper is covered by C01/C04/'
-                     'C08/C10/C12 for its own clauses and is NOT claimed '
-                     'here',
+                     'resource_classes, POST reshaper (one shape))',
                      'pre-state valid: allocation => inventory, consumer <=> '
                      'allocations'],
         quick_budget=170, thorough_budget=1700))
